@@ -110,3 +110,42 @@ Print Assumptions C17_dollar.
 Print Assumptions C17_set.
 Print Assumptions C17_del.
 Print Assumptions C17_history.
+
+(* ---- convention-aware lookups (use_convention=True) ------------------------------------------------------------ *)
+From YV Require Import Model.ContextsConv Lemmas.ContextsConv.
+
+(* the overloads a context tree offers for a name under use_convention=True are those of the plain contexts of its own
+   layer, each asked for the name rewritten by ITS OWN convention [cv p]; the conventions of MultiContext /
+   LinkedContext objects do not occur *)
+Theorem C17_convention_layer_functions : forall cv s c n f,
+  In f (fst (get_functions_cv cv s c n))
+  <-> exists p, In p (sources c) /\ plain_has_key s (cv p (rstrip_us n)) f p.
+Proof. intros; apply get_functions_cv_spec. Qed.
+
+Theorem C17_convention_exclusive : forall cv s c n,
+  snd (get_functions_cv cv s c n) = existsb (fun p => smem (cv p (rstrip_us n)) (pexcl (sget s p))) (sources c).
+Proof. intros; apply get_functions_cv_excl. Qed.
+
+Theorem C17_convention_collect : forall cv s c n,
+  collect_functions_cv cv s c n = collect_spec (map (fun c' => get_functions_cv cv s c' n) (chain c)).
+Proof. intros; apply collect_functions_cv_spec. Qed.
+
+Theorem C17_convention_identity : forall s c n,
+  get_functions_cv (fun _ k => k) s c n = get_functions s c n
+  /\ collect_functions_cv (fun _ k => k) s c n = collect_functions s c n.
+Proof. intros s c n. split; [apply get_functions_cv_id|apply collect_functions_cv_id]. Qed.
+
+Theorem C17_convention_only_members_matter : forall cv cv' s c n,
+  (forall p, In p (sources c) -> cv p (rstrip_us n) = cv' p (rstrip_us n)) ->
+  get_functions_cv cv s c n = get_functions_cv cv' s c n.
+Proof. intros cv cv' s c n H; apply get_functions_cv_ext; exact H. Qed.
+
+(* two members with different conventions: "fetch_item" asked of the multi-context finds the camelCase member's
+   fetchItem and the python member's fetch_item *)
+Example C17_convention_example :
+  let s := [ {| pdata := []; pfuncs := [([102;101;116;99;104;73;116;101;109], 1)]; pexcl := [] |};
+             {| pdata := []; pfuncs := [([102;101;116;99;104;95;105;116;101;109], 2)]; pexcl := [] |} ]%Z in
+  let t := [(0%nat, ([102;101;116;99;104;95;105;116;101;109]%Z, [102;101;116;99;104;73;116;101;109]%Z))] in
+  map snd (fst (get_functions_cv (conv_lookup t) s (CMulti [CPlain 0%nat None; CPlain 1%nat None] None)
+                  [102;101;116;99;104;95;105;116;101;109]%Z)) = [1; 2]%Z.
+Proof. vm_compute. reflexivity. Qed.
